@@ -38,6 +38,12 @@ def main():
             mod.run(ctx)
         except core.LeanFailure as e:
             lean["problems"].append({"kind": "driver", "detail": str(e)})
+        except Exception as e:   # noqa: BLE001
+            # the harness could not process what the code returned.  If a property failure was recorded before that, the failure
+            # stands and is reported; otherwise this is a harness problem (exit 2), never a violation by itself.
+            if not ctx.failures:
+                raise
+            ctx.note(f"harness exception after a recorded failure: {type(e).__name__}: {str(e)[-300:]}")
         if (lean["problems"] or ctx.mismatches) and not ctx.failures and hasattr(mod, "search"):
             try:
                 mod.search(ctx)
